@@ -3,7 +3,8 @@
     conditions are the decidable predicates of Rewards/BoundsDefs.v. *)
 From Coq Require Import ZArith List Permutation.
 From VB Require Import Rewards.BigDecDefs Rewards.CalcDefs Rewards.SpecDefs Rewards.BoundsDefs
-     Rewards.StructProofs Rewards.MapProofs Rewards.FinalProofs.
+     Rewards.StructProofs Rewards.MapProofs Rewards.FinalProofs
+     Rewards.WindowDefs Rewards.WindowProofs.
 Import ListNotations.
 Local Open Scope Z_scope.
 
@@ -101,3 +102,66 @@ Print Assumptions C14_no_endorsement_no_pay.
 Theorem C14_default_params_ok : params_okb default_params = true.
 Proof. exact default_params_ok. Qed.
 Print Assumptions C14_default_params_ok.
+
+(** locality (any wrap function, any parameter set, any chain): the difficulty is a
+    function of the [difficultyAveragingInterval] blocks preceding the endorsed block only ... *)
+Theorem C14_difficulty_only_window :
+  forall w p prevs prevs', window p prevs = window p prevs' -> calc_difficulty w p prevs = calc_difficulty w p prevs'.
+Proof. exact difficulty_only_window. Qed.
+Print Assumptions C14_difficulty_only_window.
+
+(** ... so are the payouts of an endorsed block ... *)
+Theorem C14_payouts_only_window :
+  forall w p b prevs prevs', window p prevs = window p prevs' -> calc_payouts w p b prevs = calc_payouts w p b prevs'.
+Proof. exact calc_payouts_only_window. Qed.
+Print Assumptions C14_payouts_only_window.
+
+(** ... and getPopPayout(tip) is a function of the delay + interval blocks below the tip:
+    two chains that agree there pay the same, whatever lies deeper *)
+Theorem C14_get_pop_payout_only_window :
+  forall w p chain chain', pay_window p chain = pay_window p chain' -> get_pop_payout w p chain = get_pop_payout w p chain'.
+Proof. exact get_pop_payout_only_window. Qed.
+Print Assumptions C14_get_pop_payout_only_window.
+
+(** the executable truncated evaluation (what the correspondence run compares with the real
+    calculator on the full tree) equals the model on the full chain *)
+Theorem C14_get_pop_payout_window :
+  forall p chain, get_pop_payout_win256 p chain = get_pop_payout wrap256 p chain.
+Proof. exact (get_pop_payout_window wrap256). Qed.
+Print Assumptions C14_get_pop_payout_window.
+
+Theorem C14_difficulty_window :
+  forall p prevs, difficulty_win256 p prevs = calc_difficulty wrap256 p prevs.
+Proof. exact (difficulty_window wrap256). Qed.
+Print Assumptions C14_difficulty_window.
+
+(** monotonicity of the specification: a larger table weight / block reward never lowers a share *)
+Theorem C14_share_monotone_weight :
+  forall br s w1 w2, 0 <= br -> 0 <= s -> 0 <= w1 <= w2 -> spec_share br s w1 <= spec_share br s w2.
+Proof. exact share_mono_weight. Qed.
+Print Assumptions C14_share_monotone_weight.
+
+Theorem C14_share_monotone_reward :
+  forall br br' s wg, 0 <= br <= br' -> 0 <= s -> 0 <= wg -> spec_share br s wg <= spec_share br' s wg.
+Proof. exact share_mono_reward. Qed.
+Print Assumptions C14_share_monotone_reward.
+
+(** up to the start of the slope the block reward falls with the difficulty and grows with the score *)
+Theorem C14_block_reward_antitone_difficulty :
+  forall p h s d d', params_okb p = true -> 0 <= s -> d <= d' -> fx_div s (Z.max ONE d) <= p_start p ->
+    spec_block_reward p h s d' <= spec_block_reward p h s d.
+Proof. exact block_reward_antitone_difficulty. Qed.
+Print Assumptions C14_block_reward_antitone_difficulty.
+
+Theorem C14_block_reward_monotone_score :
+  forall p h s s' d, params_okb p = true -> 0 < s <= s' -> fx_div s' (Z.max ONE d) <= p_start p ->
+    spec_block_reward p h s d <= spec_block_reward p h s' d.
+Proof. exact block_reward_monotone_score. Qed.
+Print Assumptions C14_block_reward_monotone_score.
+
+(** beyond the start of the slope the reward curve is NOT monotone in the relative score for every
+    admissible parameter set (slope 1.0: the penalty reaches 1 at relative score 2) *)
+Theorem C14_curve_monotone_refuted :
+  exists p r x x', params_okb p = true /\ 0 <= x <= x' /\ spec_curve p r x' < spec_curve p r x.
+Proof. exact curve_monotone_refuted. Qed.
+Print Assumptions C14_curve_monotone_refuted.
